@@ -253,6 +253,15 @@ enum Cmd {
     Close,
 }
 
+/// Rows that differ only in numbers the crate's tolerant `==` calls equal.
+#[derive(Serialize, Deserialize, PartialEq, Debug, Clone)]
+struct Sample {
+    sensor: String,
+    t_ns: u64,
+    v: f64,
+    tags: Vec<i64>,
+}
+
 /// A value whose own `Serialize` refuses, however deep it sits.
 #[derive(Debug, Clone, PartialEq)]
 struct Refuses;
@@ -497,7 +506,7 @@ pub fn run(args: &Args) {
     for i in 0..args.n {
         let mut rng = Rng::derive(args.seed, args.shard + 12000, i);
         let r = &mut rng;
-        match i % 50 {
+        match i % 52 {
             34 => {
                 let v = DupFlatten {
                     kind: "outer".into(),
@@ -530,6 +539,30 @@ pub fn run(args: &Args) {
                 let ik: Vec<Vec<BTreeMap<i32, i32>>> = vec![vec![vec![(1, 2)].into_iter().collect()]];
                 let _ = guarded(|| Variable::from_serializable(&ik).is_ok());
                 rep.count("integer_keyed_map_exercised_not_compared");
+            }
+            50 => {
+                // adjacent rows that are identical except for loosely-equal numbers: integers beyond 2^53
+                // one apart, doubles one ulp apart, an integer next to the same-valued float
+                let base_t = 1_700_000_000_000_000_001u64 + r.below(5) as u64;
+                let v0 = [0.3f64, 1e15, 1.0, -2.5][r.below(4)];
+                let rows: Vec<Sample> = (0..2 + r.below(4))
+                    .map(|k| Sample { sensor: "door".into(), t_ns: base_t + k as u64, v: f64::from_bits(v0.to_bits() + (k as u64 % 3)), tags: vec![9007199254740993 + k as i64, 1] })
+                    .collect();
+                both(&mut rep, &rows, "Vec<Sample>(loosely equal rows)", &ident);
+                let t: (Vec<i64>, Vec<i64>, (u64, u64)) = (vec![9007199254740992, 1], vec![9007199254740993, 1], (18446744073709551614, 18446744073709551615));
+                both(&mut rep, &t, "tuple(loosely equal rows)", &ident);
+                let mixed: Vec<Value> = vec![json!([1, 2]), json!([1.0, 2]), json!({"a": 1}), json!({"a": 1.0}), json!([1e15, 0]), json!([1000000000000000u64, 0])];
+                check_ser(&mut rep, &mixed, "Vec<Value>(int next to same-valued float)");
+            }
+            51 => {
+                // long strings with multi-byte characters where a type mismatch is worded (error texts quote the value)
+                let n = [100usize, 127, 128, 200, 255, 256, 257, 300, 1000][r.below(9)];
+                let sv = format!("{}{}", "x".repeat(r.below(3)), "é".repeat(n));
+                for j in [json!(sv.clone()), json!({"Tuple": sv.clone()}), json!({"Struct": sv.clone()}), json!({"Newtype": sv.clone()}), json!([sv.clone()]), json!({"a": sv.clone()}), json!({sv.clone(): 1}),
+                          json!({"t": sv.clone()}), json!({"Open": sv.clone()})] {
+                    de_all!(&mut rep, &j, i32 => "i32", bool => "bool", Vec<i32> => "Vec<i32>", Ext => "Ext", Named => "Named", Internal => "Internal", Untagged => "Untagged", Cmd => "Cmd",
+                            (u8, u8) => "(u8,u8)", Option<Named> => "Option<Named>", BTreeMap<String, i32> => "BTreeMap<String,i32>", Color => "Color", char => "char", UnitS => "UnitS", () => "unit");
+                }
             }
             48 | 49 => {
                 // deeply nested native values (serialising has no depth limit in serde_json)
